@@ -774,6 +774,29 @@ fn rand_payload(rng: &mut Rng) -> Payload {
     p
 }
 
+/// a valid payload whose one metric carries a bytes value of `n` bytes
+fn payload_with_bytes(n: usize) -> Vec<u8> {
+    Payload {
+        timestamp: Some(5),
+        seq: Some(1),
+        uuid: None,
+        body: None,
+        metrics: vec![Metric {
+            name: Some("big".into()),
+            alias: None,
+            timestamp: Some(5),
+            datatype: Some(17),
+            is_historical: None,
+            is_transient: None,
+            is_null: None,
+            metadata: None,
+            properties: None,
+            value: Some(metric::Value::BytesValue((0..n).map(|i| (i % 251) as u8).collect())),
+        }],
+    }
+    .encode_to_vec()
+}
+
 const TS_EDGE: [u64; 22] = [
     0, 1, 9, 10, 11, 99, 100, 101, 255, 256, 65535, 999_999_999, 1_000_000_000, 1_700_000_000_000,
     4294967295, 4294967296, 9_999_999_999_999_999_999, 10_000_000_000_000_000_000,
@@ -1505,6 +1528,50 @@ pub fn run(args: &Args, out: &mut Out) -> &'static str {
             }
         }
         batch(out, &ops, "cert:long-undecodable");
+        // BIG publishes (MQTT allows 256 MiB): sizes around powers of two up to 1 MiB + 1 on every path that
+        // ends in an invalid event (undecodable protobuf on node / device verbs, a shapeless topic, a STATE
+        // payload that is no certificate) and on the valid paths (a payload whose one metric carries a big
+        // bytes value; a certificate with a long ignored member): whatever the receive path does with big
+        // inputs, an invalid event carries the original bytes and a valid one the same payload
+        let mut ops = vec![];
+        let sizes: &[usize] = if th {
+            &[4095, 4096, 4097, 16383, 16384, 16385, 32767, 32768, 32769, 65534, 65535, 65536, 65537, 65538, 131071, 131072, 131073, 262144, 262145, 1048575, 1048576, 1048577]
+        } else {
+            &[4096, 4097, 16385, 32769, 65535, 65536, 65537, 131073, 262145, 1048577]
+        };
+        let big_topics: Vec<Vec<u8>> = vec![
+            NodeTopic::new("g", NodeMessage::NData, "n").topic.into_bytes(),
+            DeviceTopic::new("g", DeviceMessage::DBirth, "n", "d").topic.into_bytes(),
+            StateTopic::new_host("h").topic.into_bytes(),
+            b"spBv1.0/g".to_vec(),
+            b"other/g/NDATA/n".to_vec(),
+        ];
+        for (si, &sz) in sizes.iter().enumerate() {
+            // (1) undecodable: 0xff filler (an invalid protobuf key whatever follows)
+            let junk = vec![0xffu8; sz];
+            // (2) truncated valid payload: a big bytes metric cut one byte short
+            let mut p = payload_with_bytes(sz);
+            let valid = p.clone();
+            p.pop();
+            // (3) not-a-certificate JSON of that size
+            let mut notcert = b"{\"online\":1,\"x\":\"".to_vec();
+            notcert.extend(std::iter::repeat(b'a').take(sz));
+            // (4) a certificate with a long ignored member
+            let mut cert = b"{\"online\":true,\"timestamp\":7,\"x\":\"".to_vec();
+            cert.extend(std::iter::repeat(b'b').take(sz));
+            cert.extend_from_slice(b"\"}");
+            for (ti, t) in big_topics.iter().enumerate() {
+                // every (topic, body) pair for the boundary sizes, a rotating selection for the rest
+                let all = (65535..=65537).contains(&sz);
+                for (bi, b) in [&junk, &p, &valid, &notcert, &cert].into_iter().enumerate() {
+                    if all || (si + ti + bi) % 3 == 0 {
+                        out.count("big-publish");
+                        ops.push(parse_op(t, b));
+                    }
+                }
+            }
+        }
+        batch(out, &ops, "big-publishes");
         out.exhaustive.push("certificate reader: every single insertion / replacement (24-byte alphabet), deletion and truncation of the two canonical certificates".into());
         let mut ops = vec![];
         for _ in 0..(if th { 150000 } else { 25000 }) {
